@@ -34,6 +34,7 @@ type Obligation struct {
 	Result  *SolveResult
 	Comment string
 	AutoFrame string // key of the speculative loop frame this obligation checks
+	Parts     []framePart // frame obligations of one return, decided together; split only when the conjunction fails
 
 	replayConfirmed bool
 	replayNote      string
@@ -41,6 +42,11 @@ type Obligation struct {
 	replayOut       string
 	outVals         []*Value
 	outRow          []Term
+}
+
+type framePart struct {
+	Label string
+	Goal  Term
 }
 
 type ModelVar struct {
@@ -364,6 +370,31 @@ func (o *Obligation) Solve(timeoutS int) {
 		r2 := raceSolve(text, timeoutS, nil)
 		r2.Ms += r.Ms
 		r = r2
+	}
+	if r.Status != "unsat" && len(o.Parts) > 1 {
+		// the conjunction of the frame conditions did not discharge: decide each location class on its own
+		// and report the first one that fails (all of them pass = the conjunction holds)
+		total := r.Ms
+		allOK := true
+		for _, pt := range o.Parts {
+			po := *o
+			po.Parts = nil
+			po.Goal = pt.Goal
+			po.Solve(timeoutS)
+			total += po.Result.Ms
+			if po.Result.Status != "unsat" {
+				allOK = false
+				o.Name = strings.Replace(o.Name, "#assigns#only-declared-locations-written", "#assigns#unchanged "+pt.Label, 1)
+				o.Label = "unchanged " + pt.Label
+				o.Goal = pt.Goal
+				r = po.Result
+				break
+			}
+		}
+		if allOK {
+			r = &SolveResult{Solver: "split", Status: "unsat"}
+		}
+		r.Ms = total
 	}
 	if r.Status == "sat" && len(gv) > 0 {
 		r.Model = parseGetValue(r.Output, o.Inputs)
